@@ -27,7 +27,7 @@ def writable_param(fn):
 def writer_variant(ctx):
     """(variant name, payload type) of the TxLock variant that `TxLock::writable` maps to true"""
     F = ctx.facts
-    w = F.fn('TxLock::writable')
+    w = ctx.A.get('writable-role')
     adt = F.adt('TxLock')
     if w is None or adt is None:
         return None
@@ -50,7 +50,7 @@ def writer_variant(ctx):
 
 
 def begin_fn(ctx):
-    return ctx.A.get('Tx::new')
+    return ctx.A.get('begin-role')
 
 
 def writer_excl(ctx, rule='C09.writer-excl'):
